@@ -42,7 +42,7 @@ class C01(Prop):
             "entry points calculate_capture / integral / ReceptorEstimator.capture; filter rank x signal rank in {1,2,3}^2 "
             "(batch sizes 1..3 incl. size-1 broadcasting), 1..4 filters, 1..4 signals, 1..12 (thorough 40) domain points, "
             "domain = scalar step | uniform array | non-uniform ascending array, trapz True/False; dyadic values "
-            "(exact in float, rtol 1e-12) and arbitrary doubles (rtol 1e-9). non-trivial = (>=2 signals and >=2 filters "
+            "(exact in float, rtol 1e-12) and arbitrary doubles (rtol 1e-9); 20 % of the dyadic cases hand the data over as int64 / float32 arrays; integral() also called without an axis argument on arrays whose every axis is as long as the domain. non-trivial = (>=2 signals and >=2 filters "
             "and #signals != #filters) or non-uniform domain or a batch axis")
     assumptions = ["numpy's broadcasting/trapezoid arithmetic is outside the model; its results are compared within rtol 1e-12 (dyadic stream) / 1e-9",
                    "keepdims of integral() only re-inserts a unit axis: compared after numpy squeeze"]
@@ -88,6 +88,15 @@ class C01(Prop):
             def mk(shape):
                 return np.array([val() for _ in range(int(np.prod(shape)))]).reshape(shape).tolist()
             c = {"entry": entry, "domain": domain, "trapz": trapz, "dkind": dk, "arb": arb, "dscale": dscale}
+            # data handed over in another dtype: whole numbers as int64 (photon counts x boxcar masks), dyadic values as float32 (image stacks);
+            # the sample positions stay float64 (0.5-unit steps, large offsets)
+            dt = None
+            if not arb and entry != "estimator" and rng.random() < 0.2:
+                dt = rng.choice(["int", "f32"])
+                if dt == "int":
+                    def val():
+                        return float(rng.randint(-8, 8))
+                c["dt"] = dt
             if entry == "calculate_capture":
                 rf, rs = rng.choice([1, 2, 2, 3]), rng.choice([1, 2, 2, 3])
                 bf = rng.randint(1, 3); bs = rng.choice([bf, bf, 1, rng.randint(1, 3)])
@@ -107,9 +116,14 @@ class C01(Prop):
                     axis_arg = axis - r             # negative form
                 else:
                     axis_arg = axis
+                if axis == r - 1 and rng.random() < 0.6:
+                    # the documented default (last axis), no axis argument; half of these with every axis as long as the domain
+                    axis_arg = None
+                    if rng.random() < 0.5 and nd <= 6:
+                        shape = [nd] * r
                 c["S"] = mk(tuple(shape)); c["F"] = [0.0]
                 c["axis"] = axis_arg; c["axis_pos"] = axis; c["keepdims"] = rng.random() < 0.3; c["trapz"] = True
-                c["kind"] = "integral/r%d/axis%d/%s" % (r, axis, dk)
+                c["kind"] = "integral/r%d/axis%s/%s" % (r, "default" if axis_arg is None else axis, dk)
             else:
                 rs = rng.choice([1, 2, 2])
                 c["F"] = mk((nf, nd)); c["S"] = mk({1: (nd,), 2: (ns, nd)}[rs]); c["trapz"] = True
@@ -129,18 +143,19 @@ class C01(Prop):
         import dreye
         dom = case["domain"]
         dom_in = np.asarray(dom, dtype=float) if isinstance(dom, list) else float(dom)
+        dt = {"int": np.int64, "f32": np.float32}.get(case.get("dt"), float)
         if case["entry"] == "calculate_capture":
-            r = dreye.calculate_capture(np.array(case["F"], dtype=float), np.array(case["S"], dtype=float),
+            r = dreye.calculate_capture(np.array(case["F"], dtype=float).astype(dt), np.array(case["S"], dtype=float).astype(dt),
                                         domain=dom_in, trapz=case["trapz"])
         elif case["entry"] == "integral":
-            a = np.array(case["S"], dtype=float)
-            r = dreye.integral(a, dom_in, axis=case["axis"], keepdims=case["keepdims"])
+            a = np.array(case["S"], dtype=float).astype(dt)
+            r = dreye.integral(a, dom_in, keepdims=case["keepdims"], **({} if case["axis"] is None else {"axis": case["axis"]}))
             if case["keepdims"]:
                 if np.ndim(r) != a.ndim:
                     return {"error": "KeepdimsShape", "msg": "keepdims result rank %d" % np.ndim(r)}
                 if np.shape(r)[case["axis_pos"]] != 1:
                     return {"error": "KeepdimsShape", "msg": "keepdims result shape %s" % (np.shape(r),)}
-                r = np.squeeze(r, axis=case["axis"])
+                r = np.squeeze(r, axis=case["axis_pos"])
         else:
             est = dreye.ReceptorEstimator(np.array(case["F"], dtype=float), domain=dom_in)
             r = est.capture(np.array(case["S"], dtype=float))
